@@ -99,7 +99,7 @@ func genC12Case(t *rapid.T) C12Case {
 			q.Attrs = append(q.Attrs, spsim.QAttr{Name: "Nonexistent" + fmt.Sprint(i), NameFormat: A, FriendlyName: "x"})
 		}
 	}
-	c.DestKind = rapid.SampledFrom([]string{"absent", "absent", "absent", "attribute", "attribute", "attribute", "sso", "slo", "foreign", "attribute-slash", "empty"}).Draw(t, "destkind")
+	c.DestKind = rapid.SampledFrom([]string{"absent", "absent", "absent", "attribute", "attribute", "attribute", "sso", "slo", "foreign", "attribute-slash", "empty", "issuer-plus-path", "issuer-plus-path", "double-slash", "metadata"}).Draw(t, "destkind")
 	switch c.DestKind {
 	case "attribute":
 		q.Destination = idp.Advertised("attribute", c.Host)
@@ -111,13 +111,23 @@ func genC12Case(t *rapid.T) C12Case {
 		q.Destination = "https://other-idp.example/saml/attribute"
 	case "attribute-slash":
 		q.Destination = idp.Advertised("attribute", c.Host) + "/"
+	case "issuer-plus-path":
+		// issuer + route of the attribute endpoint: the advertised location only when no external URL is configured
+		q.Destination = strings.TrimSuffix(idp.ExpectedIssuer(c.Host), "/") + idp.Route("attribute")
+	case "double-slash":
+		q.Destination = idp.ExpectedIssuer(c.Host) + "/" + strings.TrimPrefix(idp.Route("attribute"), "/")
+		if !strings.HasSuffix(idp.ExpectedIssuer(c.Host), "/") {
+			q.Destination = idp.ExpectedIssuer(c.Host) + "//" + strings.TrimPrefix(idp.Route("attribute"), "/")
+		}
+	case "metadata":
+		q.Destination = idp.EntityID(c.Host)
 	case "empty":
 		q.Destination = ""
 	}
 	q.DestPrefixed = c.DestKind != "absent" && rapid.IntRange(0, 3).Draw(t, "destprefixed") == 0
 	c.Query = q
 	c.Noise = rapid.IntRange(0, 2).Draw(t, "noise") == 0
-	c.SignMode = rapid.SampledFrom([]string{"none", "none", "none", "none", "none", "none", "none", "valid", "rogue", "rogue-registered-cert", "edited", "empty-value", "rogue-no-keyinfo", "edited-no-keyinfo"}).Draw(t, "signmode")
+	c.SignMode = rapid.SampledFrom([]string{"none", "none", "none", "none", "none", "none", "none", "valid", "rogue", "rogue-registered-cert", "edited", "empty-value", "rogue-no-keyinfo", "edited-no-keyinfo", "wrapped-header", "wrapped-header-nokeyinfo"}).Draw(t, "signmode")
 	return c
 }
 
@@ -141,6 +151,8 @@ func c12Render(c C12Case, now time.Time) obs.HTTPReq {
 		sg.KeyName, sg.KeyInfo = "rogue", false
 	case "edited-no-keyinfo":
 		sg.KeyInfo = false
+	case "wrapped-header", "wrapped-header-nokeyinfo":
+		// handled below: a validly signed copy goes into the SOAP header, the body carries a forged query
 	}
 	if tree.AttrV("ID") == "" && sg.Alg != "" {
 		tree.SetAttr("ID", "_q")
@@ -165,7 +177,32 @@ func c12Render(c C12Case, now time.Time) obs.HTTPReq {
 			}
 		}
 	}
-	hr, _, _ := spsim.Encode(c.Spec.IdP.Route("attribute"), xt.Write(spsim.Envelope(tree, c.Soap), c.Style.W), spsim.Transport{Binding: "soap"}, nil)
+	env := spsim.Envelope(tree, c.Soap)
+	if strings.HasPrefix(c.SignMode, "wrapped-header") {
+		// signature wrapping: the registered SP's genuine signed query travels in soap:Header; the query in soap:Body asks
+		// for another subject and carries the copied (or a rogue, KeyInfo-less) signature
+		genuine := tree.Clone()
+		forged := c.Query.Rendered(now).QueryTree(c.Style)
+		if forged.AttrV("ID") == "" {
+			forged.SetAttr("ID", "_q")
+		}
+		if s := forged.Path("Subject", "NameID"); s != nil {
+			s.Children = nil
+			s.AddText(c.Spec.Users[1].LoginName)
+		}
+		if c.SignMode == "wrapped-header" {
+			if gs := genuine.Child(world.NSDS, "Signature"); gs != nil {
+				forged.InsertAt(1, gs.Clone())
+			}
+		} else {
+			_ = spsim.SignTree(forged, spsim.Signing{Alg: world.AlgRSASHA256, KeyName: "rogue", KeyInfo: false, DSPrefix: "ds"})
+		}
+		env = spsim.Envelope(forged, c.Soap)
+		hdr := xt.NewElem(c.Soap, world.NSSOAP, "Header")
+		hdr.Add(genuine)
+		env.InsertAt(0, hdr)
+	}
+	hr, _, _ := spsim.Encode(c.Spec.IdP.Route("attribute"), xt.Write(env, c.Style.W), spsim.Transport{Binding: "soap"}, nil)
 	hr.Host = c.Host
 	return hr
 }
